@@ -154,7 +154,7 @@ func (e *Evidence) write() error {
 		"traces_validated_against_impl": e.replayed,
 		"samples":                       e.samples,
 		"exhaustive":                    e.exit == 0,
-		"explanation":                   "states = symbolic paths explored to their end (each path stands for every input satisfying its path condition); transitions = SSA instructions executed symbolically; every assertion on every path was decided by the SMT solver (unsat = holds for all inputs of that path). traces_validated_against_impl = solver witnesses replayed against the natively compiled package.",
+		"explanation":                   "states = symbolic paths explored to their end (each path stands for every input satisfying its path condition); transitions = SSA instructions executed symbolically; every assertion and branch whose condition has a symbolic part was decided by the SMT solver (unsat = holds for all inputs of that path); conditions without a symbolic part fold to constants, which is the common case in the thread-schedule harnesses, where the exploration is over scheduling choices (a small 'queries' count there says exactly that). traces_validated_against_impl = witnesses and sampled completed paths replayed against the natively compiled package (thread harnesses: in the executor's concrete mode).",
 		"functions_encoded":             funcs,
 		"harness_functions":             hf,
 		"repo_files_sha256_prefix":      files,
